@@ -41,6 +41,10 @@ DIMS = {
     'abund': [['const', 1e-4], ['array', [1e-3, 1e-6]], ['const', 0.0], ['array', [1e-12, 1e-12, 3e-2, 3e-2]],
               ['array', [0.0, 0.0, 3e-3, 3e-3]], ['array', [1e-3, 0.0, 0.0, 1e-3]]],
     'mode': ['linear', 'exp'],
+    # type of the wavenumber axis of the opacity tables (it becomes the model's native grid): float64 or an integer
+    # np.arange axis (a float32 axis makes the unchanged code evaluate the scattering laws in single precision, 1e-5
+    # away from the reference: a precision question the statement does not settle, so it is not a letter)
+    'wndtype': ['float64', 'int64'],
 }
 # 'abs' first in default so that the default case is non-trivial
 DIMS['contribs'].remove(['abs'])
@@ -69,7 +73,9 @@ def install(case, scale):
     if case['mode'] == 'exp' and case['mag'] == 'zero':
         pass
     for mol, t in tabs.items():
-        OpacityCache().add_opacity(fx.TinyOp(mol, WN, TG, PG, t, case['mode']))
+        wd = case.get('wndtype', 'float64')
+        OpacityCache().add_opacity(fx.TinyOp(mol, WN if wd == 'float64' else np.array(WN).astype(wd), TG, PG, t,
+                                             case['mode'], keep_dtype=wd != 'float64'))
     CIACache().add_cia(fx.TinyCIA('H2-He', WN, CIA_T, cia))
     CIACache().add_cia(fx.TinyCIA('H2-H2', WN, CIA_T, cia[::-1, ::-1] * 0.3))
     return tabs, cia
@@ -321,6 +327,12 @@ def explore(ctx):
     else:
         cases = core.product_cases(DIMS, core=['N', 'mag', 'contribs', 'path', 'T', 'abund', 'mode'], d=3)
         ctx.bounds.update(deviations=3, core='N x mag x contribs x path x T x abund x mode')
+    # a very extended atmosphere (inflated low-gravity hot planet over a wide pressure range: the top lies most of a
+    # planetary radius above the surface), every layer count x magnitude x path method
+    for N, mag, pth, cb in itertools.product(DIMS['N'], DIMS['mag'], DIMS['path'], [['abs'], DIMS['contribs'][-1]]):
+        c = dict(DIMS_DEFAULT, N=N, mag=mag, path=pth, contribs=cb, planet=[1.3, 0.2], T=['iso', 1800.0], prange=[1e7, 1e-4])
+        if c not in cases:
+            cases.append(c)
     # exp interpolation of an all-zero table is log(0/0): outside the value alphabet of C04
     cases = [c for c in cases if not (c['mode'] == 'exp' and c['mag'] == 'zero')]
     ctx.run_cases('case_fn', cases, phase='inputs')
